@@ -640,10 +640,11 @@ Definition array_obs (want_copy : bool) (c : case) : bool :=
         end
     | _ => false
     end) c.
-Definition hyp_array_noncopy : case -> bool := array_obs false.
-Definition hyp_array_copy_repeat : case -> bool := array_obs true.
 Definition hyp_module (c : case) : bool :=
   match parsed_module c with Some (Some _) => true | _ => false end.
+(** (only cases whose module was generated and parses: [prop_conforms] is evaluated there) *)
+Definition hyp_array_noncopy (c : case) : bool := hyp_module c && array_obs false c.
+Definition hyp_array_copy_repeat (c : case) : bool := hyp_module c && array_obs true c.
 (** some Ok example mentions the root module, i.e. was checked against a generated item *)
 Definition hyp_item_checked (c : case) : bool :=
   hyp_module c &&
